@@ -25,7 +25,7 @@ def _impl_worker(args):
         extra = dict(sock_closed=(r.sock.closed if r.sock else None),
                      sel_closed=(r.selector.closed if r.selector else None),
                      sock_close_calls=(r.sock.close_calls if r.sock else 0),
-                     escaped=r.escaped, wait_timeouts=r.wait_timeouts[:50],
+                     escaped=r.escaped, wait_timeouts=r.wait_timeouts[:50], wake_script=r.wake_script,
                      request=r.request,
                      alias_ok=_alias_check(r),
                      stop_ok=_stop_check(r))
@@ -246,12 +246,17 @@ def run_family(rep, model, name, scenarios, oracle, project=None, rule="", known
     project(trace) -> what model and implementation are compared on.
     known(sc, complaint) -> known-finding id or None."""
     project = project or (lambda t: t)
+    oracle = judged(oracle)
     plain = [with_history(strip_meta(sc)) for sc in scenarios]
     rep.count("earlier_connection_in_process", name, sum(1 for p in plain if "previously" in p))
     rep.count("earlier_connection_of_the_same_object", name, sum(1 for p in plain if "previously_same" in p))
     impl = run_impl_many(plain, impl_opts)
-    reqs = [simnet.to_sx(sc) for sc in plain] if model is not None else []
+    # scenarios run under the honest selector: the wake-ups that really happened are the step script the model (and the
+    # oracle's time line) go by; where the application's handlers take time the model, which knows no such thing, is not asked
+    eff = [_effective(p, ex) for p, (it, ex) in zip(plain, impl)]
+    reqs = [simnet.to_sx(e) for e in eff] if model is not None else []
     mod = model.run(reqs) if model is not None else [None] * len(plain)
+    mod = [None if _sleeps(p) else m for p, m in zip(plain, mod)]
     if model is not None and not getattr(rep, "_watched", False):
         rep._watched = True
         rep.watch_extraction(model, reqs)
@@ -299,6 +304,21 @@ def run_family(rep, model, name, scenarios, oracle, project=None, rule="", known
         n_dis += d2
     rep.families.append(dict(name=name, cases=len(scenarios), rule=rule, disagreements=n_dis, oracle_failures=n_viol))
     return n_viol, n_dis
+
+
+def _effective(p, extra):
+    if p.get("honest") and extra and extra.get("wake_script") is not None:
+        return dict(p, steps=[tuple(x) for x in extra["wake_script"]])
+    return p
+
+
+def judged(oracle):
+    """the oracle sees an honest-selector scenario with the wake-ups that really happened as its steps"""
+    return lambda sc, tr, extra: oracle(_effective(sc, extra), tr, extra)
+
+
+def _sleeps(p):
+    return any(a[0] == "sleep" for acts in (p.get("app") or {}).values() for a in acts)
 
 
 def jsonable_sc(sc):
@@ -366,7 +386,7 @@ def timeline(sc, tr):
             out.append(dict(t=now, kind="wait"))
         elif c == 0:
             out.append(dict(t=now, kind="ev", code=it[1][0], fields=it[1][1:], index=nev))
-            pending_actions = list(app.get(nev, app.get(str(nev), ())))
+            pending_actions = [a for a in app.get(nev, app.get(str(nev), ())) if a[0] != "sleep"]
             nev += 1
         elif c in (1, 2):
             by_app = i + 1 < len(tr) and tr[i + 1][0] == 4
@@ -420,6 +440,6 @@ def replay_generic(body, oracles, fix=None, show=40):
     cit = simnet.canon_trace(it)
     for x in cit[:show]:
         print(x)
-    res = fn(sc, cit, extra)
+    res = judged(fn)(sc, cit, extra)
     print("REPLAY:", ("VIOLATION reproduced: %s" % res[0]) if res else "property holds on this input")
     return 1 if res else 0
